@@ -276,9 +276,9 @@ func rulesC17(c *Ctx) {
 			}
 			n++
 			st := p.StateAt(fn, ifs)
-			notRec := p.Holds(st, p.CallAtom(false, nil, "common.IsRecoveryQueue")) || p.Holds(st, p.CmpAtom(func(op token.Token, x, y Term) bool {
-				return op == token.NEQ && strings.HasSuffix(p.Src(y.E), "RecoveryQueueFull")
-			}))
+			// only the case-insensitive predicate counts: queue lookups fold case, so `!= RecoveryQueueFull` lets
+			// root.@Recovery@ through (round-5 change C17_A_r5)
+			notRec := p.Holds(st, p.CallAtom(false, nil, "common.IsRecoveryQueue"))
 			c.Check("C17.c", "access checks are only reached for a queue other than the recovery queue", ifs, notRec, "the ACL/leaf checks (and the accepting break behind them) are reached without the fact that the rule result is not the recovery queue: an ordinary rule yielding root.@recovery@ passes the root ACL (the queue does not exist yet) and a non-forced application lands in the recovery queue; facts: %v", p.FactStrings(st))
 			return true
 		})
